@@ -527,6 +527,28 @@ def all_names(nodes, acc_v, acc_n):
             all_names(g["nodes"], acc_v, acc_n)
 
 
+def _bld_begin():
+    from onnxscript._internal import _verif
+
+    if _verif.ENABLED:
+        _verif.abort_all()
+        del _verif.traces[:]
+
+
+def _bld_take(gb, obs, case):
+    """the recorded trace of the root builder gb (hooks in builder.py / _parameter.py), for BuilderTrace.tla"""
+    from onnxscript._internal import _verif
+
+    if not _verif.ENABLED or not case.get("_bld"):
+        return
+    _verif.abort_all()
+    me = _verif.tok(gb, "b")
+    got = [t for t in _verif.traces if str(t.get("kind", "")).startswith("builder/") and t.get("meta", {}).get("b") == me]
+    del _verif.traces[:]
+    if got:
+        obs["bldtrace"] = dict(got[0], allowed_findings=list(case.get("why") or []))
+
+
 def replay_trace(case):
     """-> observation dict of the real builder on one TLC trace"""
     import onnx
@@ -546,6 +568,7 @@ def replay_trace(case):
         ref.append([enc(env[v]) for v in case["outs"]])
     obs["np"] = ref
     g = ir.Graph(name="main", inputs=[], outputs=[], nodes=[], opset_imports={"": OPSET})
+    _bld_begin()
     gb = B.GraphBuilder(g)
     env = {}
     for i, n in enumerate(INPUT_NAMES):
@@ -556,6 +579,7 @@ def replay_trace(case):
     except _Raised as ex:
         obs["outcome"] = "raise"
         obs["err"] = str(ex)
+        _bld_take(gb, obs, case)
         return obs
     if gb._scope_stack:   # noqa: SLF001
         obs["scope_left"] = list(gb._scope_stack)
@@ -569,6 +593,7 @@ def replay_trace(case):
             obs["patched_outputs"] += 1
         if val.shape is None:
             val.shape = ir.Shape(list(info["shape"]))
+    _bld_take(gb, obs, case)
     for f in gb.functions.values():
         g.opset_imports.setdefault(f.domain, 1)
     wiring = []
@@ -733,7 +758,9 @@ def replay_tree(case):
         for k, prm in root.named_parameters():
             obs["keys_by_param"].setdefault(str(prm.pid), []).append(k)
         byid = {id(p): k for k, p in root.named_parameters()}
+        _bld_begin()
         g, gb, out = _trace_tree(root)
+        _bld_take(gb, obs, case)
     except Exception as ex:  # noqa: BLE001
         obs["err"] = f"{type(ex).__name__}: {str(ex)[:300]}"
         return obs
@@ -1060,6 +1087,8 @@ def run(ctx: core.Ctx):
         traces = dev + sharp + rest[: max(0, 2600 - len(dev) - len(sharp))]
     ctx.set("traces_with_untyped_literal_in_subgraph", sum(1 for c in traces if untyped_literal_in_subgraph(c)))
     ctx.set("traces_with_literal_loop_carried_operand", sum(1 for c in traces if literal_carried(c)))
+    for k in rng.sample(range(len(traces)), min(len(traces), 500 if q else 4000)):
+        traces[k]["_bld"] = True
     obs = core.pmap_safe(_trace_worker, traces, timeout=120)
     items = []
     for i, o in enumerate(obs):
@@ -1098,6 +1127,8 @@ def run(ctx: core.Ctx):
         trees = pren + nested + attr + dev + rest[: max(cap // 3, cap - len(pren) - len(nested) - len(attr) - len(dev))]
     ctx.set("trees_with_prenamed_container_child", sum(1 for c in trees if prenamed(c)))
     ctx.set("trees_with_populated_container_nested", sum(1 for c in trees if populated_before_attach(c) == 2))
+    for k in rng.sample(range(len(trees)), min(len(trees), 400 if q else 4000)):
+        trees[k]["_bld"] = True
     tobs = core.pmap_safe(replay_tree, trees, timeout=120)
     tsel = set(rng.sample(range(len(trees)), min(len(trees), 250 if q else 3000)))
     for i, o in enumerate(tobs):
@@ -1160,6 +1191,16 @@ def run(ctx: core.Ctx):
         for msg in builder_extra.run_case(bc):
             ctx.report({"kind": "builder_extra", "case": bc, "failure": msg}, f"hand-written builder trace {bc['name']}: {msg}")
             break
+    # direction B: the recorded executions of the builder (repository tests, hand-written drivers, a sample of the replayed traces
+    # and module trees) are executed event by event by BuilderApply.tla
+    from . import bldtrace
+
+    case_traces = []
+    for tag, oo in (("trace", obs), ("tree", tobs)):
+        for i, o in enumerate(oo):
+            if isinstance(o, dict) and o.get("bldtrace"):
+                case_traces.append(dict(o["bldtrace"], id=f"{tag}/{i}"))
+    bldtrace.stage(ctx, case_traces)
     ctx.set("distinct_nontrivial", len(nontriv))
     ctx.set("exhaustive", False)
     ctx.set("rule", "traces = 'done' states of Builder.tla: exhaustive over a small menu (cfg) plus random derivations (-simulate) over the full menu "
